@@ -118,6 +118,13 @@ class FakeRandom:
         self.answers.append(a)
         return a
 
+    def Random(self, *a: Any, **kw: Any) -> "FakeRandom":
+        """The tracer may keep a private generator (random.Random()): it is this same explorer-owned object."""
+        return self
+
+    def seed(self, *a: Any, **kw: Any) -> None:
+        return None
+
     def randrange(self, start: int, stop: Optional[int] = None, step: int = 1) -> int:
         if stop is None:
             return self._choose(int(start))
